@@ -130,6 +130,11 @@ func (v *visitor) IdentifierNode(node *ast.IdentifierNode) reflect.Type {
 		if t.Ambiguous {
 			return v.error(node, "ambiguous identifier %v", node.Value)
 		}
+		if t.Method {
+			// The VM fetches identifiers as fields: a method of the
+			// environment can only be called.
+			return v.error(node, "cannot use method %v as a value (it can only be called)", node.Value)
+		}
 		return t.Type
 	}
 	if !v.strict {
